@@ -1,8 +1,5 @@
 """C22 Availability profiles are applied exactly."""
-import os
 import random
-import shutil
-import tempfile
 
 from verif import build, proc
 from verif.core import HarnessFailure
@@ -78,17 +75,12 @@ def finalize(sc, rng, max_dates=40):
     return sc
 
 
-def run_case(sc, flavour, timeout=240):
-    exe = build.harness("avail.cpp", flavour)
-    text, files = gen.render(sc)
-    d = tempfile.mkdtemp(prefix="verif-C22-")
-    try:
-        for fn, content in files.items():
-            with open(os.path.join(d, fn), "w") as f:
-                f.write(content)
-        return proc.run([exe, "--log=root.thres:critical"] + sc["flags"] + sc["hflags"], stdin=text, timeout=timeout, cwd=d)
-    finally:
-        shutil.rmtree(d, ignore_errors=True)
+def run_cases(scs, flavour, budget=120):
+    return gen.run_batch(build.harness("avail.cpp", flavour), scs, "verif-C22-", per_case_budget=budget)
+
+
+def run_case(sc, flavour, budget=240):
+    return run_cases([sc], flavour, budget)[0]
 
 
 def initial_value(sc, p):
@@ -131,6 +123,32 @@ def accepts(pr, status, clock):
     return False
 
 
+def isolate(simulate, acts, obs, forced_at=None):
+    """Judge every activity on its own: the reference is re-run with the activities that already deviated (or that the statement does not
+    decide) leaving exactly when SimGrid said they left, earliest first. Returns id -> Pred on which the verdict is taken."""
+    forced = {}
+    verdict = {}
+    for _ in range(len(acts) + 1):
+        preds = simulate(forced)
+        bad = []
+        for a in acts:
+            i = a["id"]
+            if i in forced or i not in obs:
+                continue
+            if preds[i].unjudged or not accepts(preds[i], *obs[i]):
+                bad.append((obs[i][1], i))
+        if not bad:
+            break
+        _, b = min(bad)
+        verdict[b] = preds[b]
+        if forced_at is not None:
+            forced_at[b] = dict(forced)
+        forced[b] = obs[b][1]
+    for a in acts:
+        verdict.setdefault(a["id"], preds[a["id"]])
+    return verdict
+
+
 def has_zero(sc):
     return any(v == 0 for p in sc["profiles"] if p["kind"] in ("speed", "bw") for _, v in p["pts"])
 
@@ -152,17 +170,22 @@ def judge(ctx, sc, flavour, res, corrupt=None):
         sig = "SIG%d" % res.signal if res.signal else "rc%s" % res.rc
         where = ""
         for fn, tag in (("get_power_scale", "get_power_scale"), ("binary_search", "binary_search"), ("get_load", "get_load"),
-                        ("The Impossible Did Happen", "DIE_IMPOSSIBLE"), ("maxmin_solve", "maxmin_solve"), ("Profile::next", "Profile::next"),
+                        ("The Impossible Did Happen", "DIE_IMPOSSIBLE"), ("Variable penalty should not be negative", "set_latency-negative-penalty"), ("maxmin_solve", "maxmin_solve"), ("Profile::next", "Profile::next"),
                         ("pop_leq", "pop_leq")):
             if fn in res.err:
                 where = ":" + tag
                 break
-        if san and "__cxa_demangle" in res.err and "wait_for" in res.err:
-            # libstdc++'s (uninstrumented) demangler called by the exception path on a user-level context stack: sanitizer artefact
-            ctx.inconclusive("asan report inside libstdc++ __cxa_demangle on a context stack (exception path), not judged")
+        if san and (("__cxa_demangle" in res.err and "wait_for" in res.err) or "__interceptor_sigaltstack" in res.err):
+            # libstdc++'s (uninstrumented) demangler / ASan's own sigaltstack interceptor, both reached through the exception path on a
+            # user-level context stack: sanitizer artefacts (FRAMEWORK.md "Lessons"), not SimGrid's
+            ctx.inconclusive("asan report inside __cxa_demangle / the sigaltstack interceptor on a context stack (exception path), not judged")
             return False
+        if is_ti(sc) and any(p["kind"] == "speed" and p["pts"][0][0] > 0 for p in sc["profiles"]):
+            where += ":first-date>0"
         if has_zero(sc):
             where += ":zero-availability-in-scenario"
+        if is_ti(sc) and ("--avail-only-profiled" not in sc["hflags"] or any(p["kind"] == "speed" and len(p["pts"]) == 1 for p in sc["profiles"])):
+            where += ":get_available_speed-on-FIXED-trace"
         ctx.violation("C22:crash:%s:%s:%s%s" % (cfg, sc["via"], san[0][0] if san else sig, where),
                       "harness died (%s) under %s: %s" % (sig, " ".join(sc["flags"]), (san[:1] or [res.err[-600:]])[0]), w0)
         return False
@@ -201,8 +224,10 @@ def judge(ctx, sc, flavour, res, corrupt=None):
                 if obs in allowed:
                     continue
                 p = profs.get((name, k))
-                pos = "t0" if (t == 0 and near) else ("at-date" if near else "off-date")
+                pos = "at-date" if near else "off-date"
                 key = "C22:value:%s:%s:%s:%s" % (k, ":".join(x for x in (prof_class(sc, p), sc["via"]) if x), "actor" if kind == "S" else "time-advance", pos)
+                if t == 0 and near and sc["via"] == "api" and not is_ti(sc):
+                    key = "C22:point-at-date-0:api:value:%s" % k
                 last = [e for e in stp.events if e[0] <= t][-3:]
                 ctx.violation(key, "%s of %s read %s at t=%r is %r, the profile says %s (last points applied before: %r, next date %r; profile %r)"
                               % (k, name, "by an actor" if kind == "S" else "in on_time_advance", t, obs, sorted(allowed), last, stp.next_after(t), p), w0)
@@ -254,16 +279,22 @@ def judge(ctx, sc, flavour, res, corrupt=None):
     for hn, xs in by_host.items():
         h = hosts[hn]
         scale, state = step_for(sc, steps, hn, "speed"), step_for(sc, steps, hn, "hstate")
-        preds = orc.simulate_cpu(h["cores"], h["speeds"][0], scale, state, xs, w=0.0 if exact else W, horizon=end + 1e6)
+        obs = {}
+        for x in xs:
+            if x["id"] in lg.xe:
+                clock, status, st_, ft_ = lg.xe[x["id"]]
+                obs[x["id"]] = (status, clock)
+                if status == "ok" and ft_ != clock:       # the waiter (a dedicated actor for asynchronous ones) is released at the completion date
+                    ctx.violation("C22:exec:timestamps", "exec %s: wait() returned at %r but get_finish_time() = %r" % (x["id"], clock, ft_), w0)
+        verdict = isolate(lambda forced: orc.simulate_cpu(h["cores"], h["speeds"][0], scale, state, xs, w=0.0 if exact else W, horizon=end + 1e6,
+                                                          forced=forced), xs, obs)
         p = profs.get((hn, "speed"))
         for x in xs:
-            pr = preds[x["id"]]
-            if x["id"] not in lg.xe:
+            pr = verdict[x["id"]]
+            if x["id"] not in obs:
                 ctx.violation("C22:exec:never-returned:%s" % cfg, "exec %r never returned (predicted %s at %r)" % (x, pr.status, pr.time), w0)
                 continue
-            clock, status, st_, ft_ = lg.xe[x["id"]]
-            if status == "ok" and ft_ != clock:       # the waiter (a dedicated actor for asynchronous ones) is released at the completion date
-                ctx.violation("C22:exec:timestamps", "exec %s: wait() returned at %r but get_finish_time() = %r" % (x["id"], clock, ft_), w0)
+            status, clock = obs[x["id"]]
             ctx.evaluation()
             if pr.unjudged:
                 ctx.count("execs.unjudged")
@@ -282,14 +313,15 @@ def judge(ctx, sc, flavour, res, corrupt=None):
                 cls = "zero-availability"
             elif is_ti(sc):
                 cls = prof_class(sc, p)
-            elif x["start"] == 0 and sc["via"] == "api" and (scale.changes_in(0, 0) or state.changes_in(0, 0)):
-                cls = "point-at-date-0:api"
-            ctx.violation("C22:exec-finish:%s" % cls,
+            key = "C22:exec-finish:%s" % cls
+            if cls == "plain" and x["start"] == 0 and sc["via"] == "api" and (scale.changes_in(0, 0) or state.changes_in(0, 0)):
+                key = "C22:point-at-date-0:api:exec-finish"
+            ctx.violation(key,
                           "exec %s of %r flops (bound %r) started at %r on %s (%d cores of %r flop/s): reference %s at %r%s, observed %s at %r; "
                           "speed profile %r, state profile %r, co-running %r"
                           % (x["id"], x["flops"], x["bound"], x["start"], hn, h["cores"], h["speeds"][0], pr.status, pr.time,
                              " (or %r)" % pr.alts if pr.alts else "", status, clock, p, profs.get((hn, "hstate")),
-                             [(y["id"], y["start"]) for y in xs if y is not x]), w0)
+                             [(y["id"], y["start"], obs.get(y["id"])) for y in xs if y is not x]), w0)
 
     # ---- (d) messages ----
     for dst, cs in meta.items():
@@ -300,22 +332,31 @@ def judge(ctx, sc, flavour, res, corrupt=None):
             links.append({"name": ln, "policy": l["policy"], "bw": step_for(sc, steps, ln, "bw"), "lat": step_for(sc, steps, ln, "lat"),
                           "state": step_for(sc, steps, ln, "lstate")})
         w = 0.0 if exact else W
-        preds = orc.simulate_route(links, cs, capped=False, w=w, horizon=end + 1e6)
-        capped = None
+        obs = {}
         for c in cs:
-            pr = preds[c["id"]]
-            if c["id"] not in lg.ce:
+            if c["id"] in lg.ce:
+                clock, status, st_, ft_ = lg.ce[c["id"]]
+                obs[c["id"]] = (status, clock)
+                if status == "ok" and ft_ != clock:
+                    ctx.violation("C22:comm:timestamps", "comm %s: wait() returned at %r but get_finish_time() = %r" % (c["id"], clock, ft_), w0)
+        forced_at = {}
+        verdict = isolate(lambda forced: orc.simulate_route(links, cs, capped=False, w=w, horizon=end + 1e6, forced=forced), cs, obs, forced_at)
+        for c in cs:
+            pr = verdict[c["id"]]
+            lat0 = sum(k["lat"].at(c["start"]) for k in links)
+            if c["id"] not in obs:
                 cls = "plain"
                 for l in links:
                     for d, v in l["lat"].changes_in(c["start"], end):
                         if sum(k["lat"].at(d) for k in links) == 0:
                             cls = "latency-point-leaves-route-latency-at-0"
+                for l in links:
+                    if [1 for d, v in l["lat"].changes_in(c["start"], c["start"] + lat0) if d > c["start"] or c["start"] == 0]:
+                        cls = "latency-point-while-paying-latency"
                 ctx.violation("C22:comm:never-returned:%s" % cls, "comm %r over %r never returned (reference: %s at %r); simulation ended at %r; "
                               "latency profiles %r" % (c, r["links"], pr.status, pr.time, end, [p for p in sc["profiles"] if p["res"] in r["links"] and p["kind"] == "lat"]), w0)
                 continue
-            clock, status, st_, ft_ = lg.ce[c["id"]]
-            if status == "ok" and ft_ != clock:
-                ctx.violation("C22:comm:timestamps", "comm %s: wait() returned at %r but get_finish_time() = %r" % (c["id"], clock, ft_), w0)
+            status, clock = obs[c["id"]]
             ctx.evaluation()
             if pr.unjudged:
                 ctx.count("comms.unjudged")
@@ -328,24 +369,32 @@ def judge(ctx, sc, flavour, res, corrupt=None):
                 if pr.time != orc.INF:
                     ctx.maximum("comms.worst_abs_error", abs(clock - pr.time))
                 continue
-            if capped is None:
-                capped = orc.simulate_route(links, cs, capped=True, w=w, horizon=end + 1e6)
-            cp = capped[c["id"]]
+            # name the deviation: the same history (messages reported before leave when SimGrid said) under the non-documented variants
+            fz = forced_at.get(c["id"], {})
+            variants = [orc.simulate_route(links, cs, capped=m, w=w, horizon=end + 1e6, forced=fz)[c["id"]] for m in ((1, 2, 3) if w > 0 else (1,))]
+            cp = variants[0]
             cls = "plain"
+            for l in links:
+                for d, v in l["lat"].changes_in(c["start"], max(clock, pr.time if pr.time != orc.INF else clock)):
+                    if d > c["start"] and sum(k["lat"].at(d) for k in links) == 0:
+                        cls = "latency-point-leaves-route-latency-at-0"
             if "lat-points-in-latency-phase" in pr.tags:
                 cls = "latency-point-while-paying-latency"
             if "zero" in pr.tags:
                 cls = "zero-bandwidth"
-            elif accepts(cp, status, clock):
+            elif any(accepts(v, status, clock) for v in variants):
                 cls = "bandwidth-raised-after-start"
-            elif c["start"] == 0 and sc["via"] == "api" and any(l[k].changes_in(0, 0) for l in links for k in ("bw", "lat", "state")):
-                cls = "point-at-date-0:api"
-            ctx.violation("C22:comm-finish:%s" % cls,
+            elif any("zero" in v.tags and v.time != pr.time for v in variants):
+                cls = "bandwidth-raised-after-start+zero-bandwidth"
+            key = "C22:comm-finish:%s" % cls
+            if cls == "plain" and c["start"] == 0 and sc["via"] == "api" and any(l[k].changes_in(0, 0) for l in links for k in ("bw", "lat", "state")):
+                key = "C22:point-at-date-0:api:comm-finish"
+            ctx.violation(key,
                           "message %s of %r bytes started at %r towards %s over %r: reference %s at %r%s, observed %s at %r (a flow limited for ever "
                           "to the smallest bandwidth its route had when it started would give %s at %r); profiles %r; other messages %r"
                           % (c["id"], c["size"], c["start"], dst, [(l["name"], l["policy"]) for l in links], pr.status, pr.time,
                              " (or %r)" % pr.alts if pr.alts else "", status, clock, cp.status, cp.time,
-                             [p for p in sc["profiles"] if p["res"] in r["links"]], [(y["id"], y["start"]) for y in cs if y is not c]), w0)
+                             [p for p in sc["profiles"] if p["res"] in r["links"]], [(y["id"], y["start"], obs.get(y["id"])) for y in cs if y is not c]), w0)
     if nontrivial:
         sig = dict(sc)
         ctx.nontrivial(sig)
@@ -412,6 +461,22 @@ def directed():
     sc["profiles"] = [{"kind": "bw", "res": "l1a", "pts": [[1.0, 0.0], [2.0, 8.0]], "loop": None, "how": "str"}]
     sc["actors"] = [{"name": "w0", "host": "obs", "ops": [["comm", "c1", "obs", "n1", 32]]}]
     out.append(("zero:bw", sc))
+    sc = _base()
+    sc["hosts"] += [{"name": "h1", "cores": 1, "speeds": [8.0]}]
+    sc["profiles"] = [{"kind": "speed", "res": "h1", "pts": [[1.0, 0.0], [2.0, 0.5]], "loop": None, "how": "str"}]
+    sc["actors"] = [{"name": "w0", "host": "obs", "ops": [["until", 1.5], ["exec", "x1", "h1", 16.0, 0.0, 1.0, 1]]}]
+    out.append(("zero:exec-started-meanwhile", sc))
+    # D4b (finding): a latency point (even one that repeats the current value) while a message is in flight
+    for opt in ("Lazy", "Full"):
+        sc = _base(extra_flags=["--cfg=network/optim:%s" % opt])
+        sc["hosts"] += [{"name": "n1", "cores": 1, "speeds": [1.0]}, {"name": "n2", "cores": 1, "speeds": [1.0]}]
+        sc["links"] = [{"name": "l1a", "bw": 16.0, "lat": 0.0, "policy": "SHARED"}, {"name": "l2a", "bw": 16.0, "lat": 1.0, "policy": "SHARED"}]
+        sc["routes"] = [{"src": "obs", "dst": "n1", "links": ["l1a"]}, {"src": "obs", "dst": "n2", "links": ["l2a"]}]
+        sc["profiles"] = [{"kind": "lat", "res": "l1a", "pts": [[1.0, 0.0]], "loop": None, "how": "str"},
+                          {"kind": "lat", "res": "l2a", "pts": [[0.5, 1.0]], "loop": None, "how": "str"}]
+        sc["actors"] = [{"name": "c_n1", "host": "obs", "ops": [["comm", "c1", "obs", "n1", 64]]},
+                        {"name": "c_n2", "host": "obs", "ops": [["comm", "c2", "obs", "n2", 64]]}]
+        out.append(("latency-point:" + opt, sc))
     # D5 (finding): a bandwidth that raises while a message is in flight
     sc = _base()
     sc["hosts"] += [{"name": "n1", "cores": 1, "speeds": [1.0]}]
@@ -445,14 +510,19 @@ def directed():
     sc["profiles"] = [{"kind": "speed", "res": "h1", "pts": [[0.0, 1.0], [1.0, 0.5]], "loop": ["LOOPAFTER", 1.0], "how": "str"}]
     sc["actors"] = [{"name": "w0", "host": "obs", "ops": [["until", 0.5], ["exec", "x1", "h1", 8.0, 0.0, 1.0, 1]]}]
     out.append(("TI:get_available_speed", sc))
+    sc = _base(ti=True)
+    sc["hosts"] += [{"name": "h1", "cores": 1, "speeds": [8.0]}]
+    sc["profiles"] = [{"kind": "speed", "res": "h1", "pts": [[0.0, 1.0]], "loop": ["PERIODICITY", 2.0], "how": "str"}]
+    sc["actors"] = [{"name": "w0", "host": "obs", "ops": [["until", 0.5], ["exec", "x1", "h1", 8.0, 0.0, 1.0, 1]]}]
+    out.append(("TI:get_available_speed:one-point", sc))
     return out
 
 
 def run(ctx):
     build.ensure("hooks")
     build.harness("avail.cpp", "hooks")
-    n = ctx.size(quick=260, thorough=9000)
-    nti = ctx.size(quick=40, thorough=1200)
+    n = ctx.size(quick=170, thorough=9000)
+    nti = ctx.size(quick=30, thorough=1200)
     nasan = max(2, n // 10)
     cases = []
     for name, sc in directed():
@@ -476,20 +546,28 @@ def run(ctx):
             rng = ctx.sub_rng("a", i)
             r = rng.random()
             sc, _ = gen.c22_scenario(rng, ti=r > 0.85, zero=r < 0.15, many=0.15 <= r < 0.3)
+            # no link failure under ASan: the exception paths (NetworkFailureException, HostFailureException) call libstdc++'s uninstrumented demangler on a context
+            # stack, which ASan reports as a stack-buffer-overflow (sanitizer artefact, not SimGrid's)
+            sc["profiles"] = [p for p in sc["profiles"] if p["kind"] not in ("lstate", "hstate")]
             finalize(sc, rng)
             cases.append(("asan%d" % i, sc, "asan"))
 
-    def one(c):
-        name, sc, flavour = c
-        res = run_case(sc, flavour, timeout=240 if flavour == "hooks" else 600)
-        nt = judge(ctx, sc, flavour, res)
-        ctx.count("cases." + flavour)
-        ctx.count("cases." + ("TI" if is_ti(sc) else sc["via"]))
-        ctx.count("cases." + sc["mode"])
-        if nt and name.startswith("gen"):
-            ctx.sample({"case": name, "profiles": sc["profiles"][:3], "flags": sc["flags"], "log_excerpt": res.out.splitlines()[:6]})
-        return nt
-    ctx.pmap(one, cases)
+    def one(chunk):
+        flavour = chunk[0][2]
+        results = run_cases([c[1] for c in chunk], flavour, budget=120 if flavour == "hooks" else 300)
+        for (name, sc, _), res in zip(chunk, results):
+            nt = judge(ctx, sc, flavour, res)
+            ctx.count("cases." + flavour)
+            ctx.count("cases." + ("TI" if is_ti(sc) else sc["via"]))
+            ctx.count("cases." + sc["mode"])
+            if nt and name.startswith("gen"):
+                ctx.sample({"case": name, "profiles": sc["profiles"][:3], "flags": sc["flags"], "log_excerpt": res.out.splitlines()[:6]})
+    chunks = []
+    for fl in ("hooks", "asan"):
+        mine = [c for c in cases if c[2] == fl]
+        size = 12 if fl == "hooks" else 4
+        chunks += [mine[i:i + size] for i in range(0, len(mine), size)]
+    ctx.pmap(one, chunks)
 
 
 def replay(ctx, witness):
